@@ -14,14 +14,14 @@ tvars == <<vars, l>>
 TInit == Init /\ l = 1 /\ TLCSet(2, 0) /\ TLCSet(3, {})
 
 ResetVars(ev) ==
-    /\ sh' = [closing |-> 0, connecting |-> 1, processing |-> 1, st |-> 0, inlen |-> 0, opst |-> 1, det |-> 0, reg |-> TRUE]
+    /\ sh' = InitSh
     /\ env' = [pend |-> 0, sent |-> 0, peerClosed |-> FALSE]
     /\ P' = [pc |-> "p_fetch", k |-> 0, hup |-> FALSE, need |-> FALSE]
     /\ H' = [pc |-> "none"]
-    /\ T' = [i \in 1 .. MaxTasks |-> IF i = 1 THEN [pc |-> "t_start", cb |-> 0, oc |-> TRUE, n |-> 0] ELSE NoTask]
-    /\ nt' = 1
+    /\ T' = InitT
+    /\ nt' = IF WithOnConnect THEN 1 ELSE 0
     /\ C' = [pc |-> IF ev.closer = 1 THEN "c_cb" ELSE "none"]
-    /\ hist' = [conn |-> 0, req |-> 0, reqs |-> 0, cc |-> 0, ccn |-> 0, od |-> 0, pcl |-> 0, bad |-> {}]
+    /\ hist' = InitHist
 
 ProjOk(ev) ==
     /\ sh'.closing = ev.closing /\ sh'.connecting = ev.connecting /\ sh'.processing = ev.processing /\ sh'.st = ev.st
